@@ -93,6 +93,15 @@ func rpcCode(c int32) string { return codes.Code(c).String() }
 func (c *Client) guard(r *Res, f func()) {
 	r.Size = -2
 	r.Call = c.S.Now()
+	// like net/http and grpc-go, cancel the request's context when the
+	// handler has returned
+	outer := c.Ctx
+	ctx, cancel := context.WithCancel(outer)
+	c.Ctx = ctx
+	defer func() {
+		cancel()
+		c.Ctx = outer
+	}()
 	defer func() {
 		if p := recover(); p != nil {
 			r.Panic = fmt.Sprint(p)
@@ -324,11 +333,13 @@ func (b *clBody) Read(p []byte) (int, error) {
 	if err == io.EOF && b.left > 0 {
 		return n, io.ErrUnexpectedEOF
 	}
-	if err == io.EOF {
-		err = nil
-		if n == 0 {
-			return 0, io.EOF
+	if err == nil || err == io.EOF {
+		// like net/http's server-side body: the final bytes of a body with a
+		// Content-Length come together with io.EOF
+		if b.left == 0 {
+			return n, io.EOF
 		}
+		return n, nil
 	}
 	return n, err
 }
